@@ -89,6 +89,7 @@ type State struct {
 	gen        int
 	writtenAll bool
 	wvBad      []string
+	heapBound  map[string]string // heap array -> allocation counter bounding every reference stored in it ("" = current)
 }
 
 func (st *State) clone() *State {
@@ -115,6 +116,10 @@ func (st *State) clone() *State {
 		n.iters[k] = &c
 	}
 	n.pathDesc = st.pathDesc[:len(st.pathDesc):len(st.pathDesc)]
+	n.heapBound = make(map[string]string, len(st.heapBound))
+	for k, v := range st.heapBound {
+		n.heapBound[k] = v
+	}
 	return n
 }
 
@@ -147,6 +152,7 @@ type Ob struct {
 	Props  []string
 	Goal   string
 	Query  string
+	Light  string
 	Path   string
 	Status string // filled by solver
 	Solver string
@@ -198,6 +204,7 @@ type Exec struct {
 	fnModAll bool
 	collectTyping bool
 	pendingTyping []Val
+	pendingBound []string
 	curFrame *Frame
 	curCallee string
 	inLoopHavoc bool
@@ -437,6 +444,14 @@ func (x *Exec) assumeTyping(st *State, v Val) {
 		switch u := v.T.Underlying().(type) {
 		case *types.Pointer, *types.Map, *types.Chan:
 			st.assume(and(app("<=", "0", v.S), app("<=", v.S, st.alloc)))
+			if pt, ok := u.(*types.Pointer); ok {
+				if _, isStruct := pt.Elem().Underlying().(*types.Struct); isStruct {
+					if _, named := pt.Elem().(*types.Named); named {
+						// type safety: a non-nil *T points to an object allocated as a T
+						st.assume(implies(not(eq(v.S, "0")), eq(sel(x.typArr(st), v.S), x.typeId(pt.Elem()))))
+					}
+				}
+			}
 		case *types.Basic:
 			if u.Kind() == types.UnsafePointer {
 				st.assume(and(app("<=", "0", v.S), app("<=", v.S, st.alloc)))
@@ -445,11 +460,9 @@ func (x *Exec) assumeTyping(st *State, v Val) {
 				st.assume(x.idxGe0(x.strLen(v.S)))
 			}
 		case *types.Array:
-			if w, signed, ok := isIntType(u.Elem()); ok && x.mode == ModeInt && !signed && w == 8 && u.Len() <= 32 {
-				for i := int64(0); i < u.Len(); i++ {
-					e := sel(v.S, intLit(i))
-					st.assume(and(app("<=", "0", e), app("<=", e, "255")))
-				}
+			_ = u
+			if n, ok := packedArray(v.T); ok && x.mode == ModeInt {
+				st.assume(and(app("<=", "0", v.S), app("<", v.S, pow2(8*n).String())))
 			}
 		}
 	case KFunc:
@@ -566,6 +579,9 @@ func (x *Exec) heapArr(st *State, name, sort string) string {
 	x.decls.Const(base, sort)
 	st.heap[name] = base
 	x.noteArr(name, sort)
+	if ax := x.nilMapAxiom(name, sort, base); ax != "" {
+		x.ensurePre(ax)
+	}
 	return base
 }
 
@@ -597,8 +613,26 @@ func (x *Exec) checkWritesVia(st *State, name string) {
 	}
 }
 
+// refBound: every reference stored in the current version of heap array `name` is <= this allocation counter.
+func (x *Exec) refBound(st *State, name string) string {
+	if b, ok := st.heapBound[name]; ok {
+		if b == "" {
+			return st.alloc
+		}
+		return b
+	}
+	if st.gen == 0 {
+		return "alloc!0"
+	}
+	return st.alloc
+}
+
 func (x *Exec) heapSet(st *State, name, sort, term string) {
 	x.checkWritesVia(st, name)
+	if st.heapBound == nil {
+		st.heapBound = map[string]string{}
+	}
+	st.heapBound[name] = st.alloc
 	n := x.fresh(name)
 	st.lines = append(st.lines, fmt.Sprintf("(define-fun %s () %s %s)", n, sort, term))
 	st.heap[name] = n
@@ -614,7 +648,29 @@ func (x *Exec) heapHavoc(st *State, name, sort string) (string, string) {
 	n := x.freshConst(name, sort)
 	st.heap[name] = n
 	st.written[name] = true
+	if st.heapBound == nil {
+		st.heapBound = map[string]string{}
+	}
+	st.heapBound[name] = ""
+	if ax := x.nilMapAxiom(name, sort, n); ax != "" {
+		st.assume(ax)
+	}
 	return old, n
+}
+
+// nilMapAxiom: the nil map (id 0) has no keys and length 0, in every version of a map family's arrays.
+func (x *Exec) nilMapAxiom(name, sort, sym string) string {
+	if !strings.HasPrefix(name, "map_") {
+		return ""
+	}
+	if strings.HasSuffix(name, ".has") {
+		inner := arrayElemSort(sort)
+		return eq(sel(sym, "0"), fmt.Sprintf("((as const %s) false)", inner))
+	}
+	if strings.HasSuffix(name, ".len") {
+		return eq(sel(sym, "0"), x.idxLit(0))
+	}
+	return ""
 }
 
 func nestedSelect(arr string, idx []string) string {
@@ -630,6 +686,54 @@ func nestedStore(arr string, idx []string, v string) string {
 		return v
 	}
 	return sto(arr, idx[0], nestedStore(sel(arr, idx[0]), idx[1:], v))
+}
+
+// packed byte arrays living in element memory (pointer to [N]byte): convert between the scalar and N memory cells
+func (x *Exec) packedObj(a *Addr) (int, bool) {
+	n, ok := packedArray(a.T)
+	if !ok || !strings.HasPrefix(a.Prefix, "mem_") || len(a.Idx) != 1 || len(a.Sub) != 0 {
+		return 0, false
+	}
+	return n, true
+}
+
+func (x *Exec) byteAt(v string, i, n int) string {
+	if x.mode == ModeBV {
+		return fmt.Sprintf("((_ extract %d %d) %s)", 8*i+7, 8*i, v)
+	}
+	if i == 0 {
+		return app("mod", v, "256")
+	}
+	return app("mod", app("div", v, pow2(8*i).String()), "256")
+}
+
+func (x *Exec) packBytes(cell string, n int) string {
+	// little-endian packing: byte i has weight 256^i
+	if x.mode == ModeBV {
+		t := sel(cell, x.idxLit(int64(n-1)))
+		for i := n - 2; i >= 0; i-- {
+			t = app("concat", t, sel(cell, x.idxLit(int64(i))))
+		}
+		return t
+	}
+	var parts []string
+	for i := 0; i < n; i++ {
+		b := sel(cell, intLit(int64(i)))
+		if i == 0 {
+			parts = append(parts, b)
+		} else {
+			parts = append(parts, app("*", b, pow2(8*i).String()))
+		}
+	}
+	return app("+", parts...)
+}
+
+func (x *Exec) unpackBytes(cell string, v string, n int) string {
+	t := cell
+	for i := 0; i < n; i++ {
+		t = sto(t, x.idxLit(int64(i)), x.byteAt(v, i, n))
+	}
+	return t
 }
 
 // readAt builds the read term for leaf array arr at address a.
@@ -670,8 +774,31 @@ func (x *Exec) updFun(elemSort string) string {
 }
 
 func (x *Exec) load(st *State, a *Addr) Val {
+	if n, ok := x.packedObj(a); ok {
+		bs := x.byteSort()
+		hs := "(Array Int (Array " + x.sorts.Idx() + " " + bs + "))"
+		arr := x.heapArr(st, a.Prefix, hs)
+		cell := sel(arr, a.Idx[0])
+		if x.mode == ModeInt {
+			for i := 0; i < n; i++ {
+				e := sel(cell, intLit(int64(i)))
+				st.assume(and(app("<=", "0", e), app("<=", e, "255")))
+			}
+		}
+		v := Val{T: a.T, K: KScalar, S: st.define(x, "packed", leafSortOf(x, a.T), x.packBytes(cell, n))}
+		x.assumeTyping(st, v)
+		return v
+	}
 	ls := x.sorts.leaves(a.T)
 	terms := make([]string, len(ls))
+	if x.con != nil && x.con.Functional != "" && x.dry == 0 && len(ls) > 0 {
+		// a function declared `functional` may only read memory it allocated itself
+		if a.Global {
+			x.oblige(st, "functional", "reads-only-arguments", x.curPos, "false", nil)
+		} else if len(a.Idx) > 0 {
+			x.oblige(st, "functional", "reads-only-arguments", x.curPos, app(">", a.Idx[0], "alloc!0"), nil)
+		}
+	}
 	for i, l := range ls {
 		name := a.Prefix + l.suffix
 		hs := x.leafHeapSort(a, l)
@@ -681,8 +808,23 @@ func (x *Exec) load(st *State, a *Addr) Val {
 	v := x.unflatten(a.T, terms)
 	// name loaded values to keep terms small, and add typing facts
 	v = x.nameVal(st, v, "ld")
-	x.assumeTyping(st, v)
+	x.assumeTypingBound(st, v, x.refBound(st, a.Prefix+ls0suffix(ls)))
 	return v
+}
+
+func ls0suffix(ls []leaf) string {
+	if len(ls) == 0 {
+		return ""
+	}
+	return ls[0].suffix
+}
+
+// assumeTypingBound is assumeTyping with a tighter allocation bound for the references inside v.
+func (x *Exec) assumeTypingBound(st *State, v Val, bound string) {
+	save := st.alloc
+	st.alloc = bound
+	x.assumeTyping(st, v)
+	st.alloc = save
 }
 
 func (x *Exec) leafHeapSort(a *Addr, l leaf) string {
@@ -725,6 +867,13 @@ func copyMeta(dst *Val, src Val) {
 }
 
 func (x *Exec) store(st *State, a *Addr, v Val) {
+	if n, ok := x.packedObj(a); ok {
+		bs := x.byteSort()
+		hs := "(Array Int (Array " + x.sorts.Idx() + " " + bs + "))"
+		arr := x.heapArr(st, a.Prefix, hs)
+		x.heapSet(st, a.Prefix, hs, sto(arr, a.Idx[0], x.unpackBytes(sel(arr, a.Idx[0]), v.S, n)))
+		return
+	}
 	ls := x.sorts.leaves(a.T)
 	terms := x.flatten(v)
 	if len(terms) != len(ls) {
